@@ -15,7 +15,7 @@ Local Open Scope outcome_scope.
 Inductive terr :=
 | InvalidByte | StartsWithSlash | RepeatedSlash | RepeatedDot | LockFileSuffix | ReflogPortion
 | Asterisk | StartsWithDot | EndsWithDot | EndsWithSlash | Empty.
-Inductive rerr := Tag (e : terr) | SomeLowercase | StandaloneAt.
+Inductive rerr := Tag (e : terr) | SomeLowercase.
 
 Definition dot : byte := x2e.
 Definition slash : byte := x2f.
@@ -153,13 +153,7 @@ Definition validate (path : bytes) (mode : rmode) : outcome (option bytes) rerr 
   | Err e => Err (Tag e)
   | Panic => Panic
   | OutOfFuel => OutOfFuel
-  | Ok out0 =>
-      (* `@` on its own: sanitised to `-`, otherwise an error *)
-      at_step <- match out0 with
-                 | Some o => Ok (Some (if bytes_eqb o [at_] then [dash] else o))
-                 | None => if bytes_eqb path [at_] then Err StandaloneAt else Ok None
-                 end ;;
-      let out := at_step in
+  | Ok out =>
       match mode with
       | Complete =>
           let input := match out with Some b => b | None => path end in
